@@ -48,6 +48,8 @@ def shards(tier):
     out += [dict(fam="vii", k=k) for k in range(16)]
     out += [dict(fam="viii", k=k) for k in range(4)]
     out += [dict(fam="ix", k=k) for k in range(8)]
+    out += [dict(fam="x", k=k) for k in range(4)]
+    out += [dict(fam="xi", k=k) for k in range(8)]
     return out
 
 
@@ -595,8 +597,97 @@ def fam_ix(k, tier, acc):
     acc.sample(dict(fam="ix", k=k))
 
 
+def fam_x(k, tier, acc):
+    """Source/route shapes of single entries: orthogonal tables of three
+    exact 3-bit keys whose entries are drawn from every 'almost default'
+    shape - straight through on each of the six links, a CORE source whose
+    number is congruent to the opposite link (monitor -> West, core 1 ->
+    South-West, core 3 -> East, core 17), two sources, a link plus an unknown
+    source, a route to a link and a core, a straight-through core route."""
+    shapes = []
+    for l in range(6):
+        shapes.append(([l], [(l + 3) % 6]))             # default-routable
+    for c in (0, 1, 3, 17):
+        shapes.append(([(6 + c + 3) % 6], [6 + c]))     # source is a core
+    shapes += [([N], [S, W]), ([N], [S, None]), ([N, CORE1], [S]),
+               ([CORE1], [6 + 4]), ([N], [N]), ([S], [None])]
+    m = mask_of(0, B3) | 0x7
+    i = -1
+    reps = 3 if tier != "quick" else 2
+    for ks in itertools.product(range(len(shapes)), repeat=reps):
+        i += 1
+        if i % 4 != k:
+            continue
+        table = [[list(shapes[x][0]), key, m, list(shapes[x][1])]
+                 for key, x in enumerate(ks)]
+        # a fully general last entry with a route of its own: removal of an
+        # entry above it changes the routing unless default routing
+        # reproduces it
+        for tail in ([], [[[E], 0, mask_of(0, B3), [W]]]):
+            acc.nontrivial += 1
+            judge_table(table + tail, B3, tier, acc, "x", remin=False)
+    acc.sample(dict(fam="x", k=k, shapes=len(shapes)))
+
+
+def fam_xi(k, tier, acc):
+    """Partial merges under a target: a group of three or four exact 4-bit
+    keys with one route, one ternary entry (>= 1 X) with another route below
+    them, EVERY target from 1 to the table length - the minimiser may stop
+    merging early, and whatever it stops with must still route every key as
+    before."""
+    nb = 4
+    pats = []
+    for t in itertools.product((0, 1, 2), repeat=nb):
+        if 2 not in t:
+            continue
+        key = sum((1 << i) for i, v in enumerate(t) if v == 1)
+        mask = sum((1 << i) for i, v in enumerate(t) if v != 2)
+        pats.append((key, mask | mask_of(0, nb)))
+    m = 0xffffffff
+    i = -1
+    groups = [(0,) + c for c in itertools.combinations(range(1, 16), 2)]
+    groups += [(0,) + c for c in itertools.combinations(range(1, 16), 3)]
+    for g in groups:
+        i += 1
+        if i % 8 != k:
+            continue
+        group = [[[N], kk, m, [W]] for kk in g]
+        for (pk, pm) in pats:
+            table = group + [[[S], pk, pm, [W]]]
+            acc.nontrivial += 1
+            for fn in ("oc", "minimise_table"):
+                for t in range(1, len(table) + 1):
+                    acc.evaluations += 1
+                    r = call(fn, table, t)
+                    case = dict(fam="xi", table=table, nbits=nb, fn=fn,
+                                target=t)
+                    if r[0] == "exc":
+                        acc.violation(dict(kind="exception", fn=fn,
+                                           empty=False), case, r[1], size=5)
+                    elif r[0] == "ok":
+                        msg = compare(table, r[1], nb)
+                        if msg:
+                            acc.violation(
+                                dict(kind="routing_changed", fn=fn), case,
+                                "%s(target %d) of %s: %s"
+                                % (fn, t, [fmt(e) for e in table], msg),
+                                size=5)
+                        elif len(r[1]) > t:
+                            acc.violation(dict(kind="target_missed", fn=fn),
+                                          case, "returned %d entries for "
+                                          "target %d" % (len(r[1]), t),
+                                          size=5)
+    acc.sample(dict(fam="xi", k=k, groups=len(groups), blockers=len(pats)))
+
+
 def run_shard(params, tier, acc):
     f = params["fam"]
+    if f == "x":
+        fam_x(params["k"], tier, acc)
+        return
+    if f == "xi":
+        fam_xi(params["k"], tier, acc)
+        return
     if f == "ix":
         fam_ix(params["k"], tier, acc)
         return
